@@ -24,8 +24,8 @@ import (
 
 func main() {
 	r := ev.Start("C17", "exploration")
-	r.Rule("distinct_nontrivial = well-conditioned cases in which a defining equation was actually evaluated (invertible matrices, separated eigen/singular values, full-rank systems, polynomials with at least one real root, searches with at least one refinement, curves)")
-	r.Assume("conditioning filters: |det| >= 1/2 for inverses, eigenvalues and singular values separated by >= 0.1 (reference: cyclic Jacobi on M^T M), smallest singular value >= 0.1",
+	r.Rule("distinct_nontrivial = well-conditioned cases in which a defining equation was actually evaluated (invertible matrices, separated eigenvalues, full-rank systems, polynomials with at least one real root, searches with at least one refinement, curves)")
+	r.Assume("conditioning filters: |det| >= 1/2 for inverses, eigenvalues separated by >= 0.1, smallest singular value >= 0.1 (reference: cyclic Jacobi on M^T M); singular values may coincide - the decomposition must still reconstruct",
 		"a returned polynomial root x must satisfy |p(x)| <= 1e-6 sum|a_i||x|^i; an expected root is one where p changes sign (or a planted root)",
 		"tolerances 1e-9 x scale for algebraic identities, 1e-7 x condition number for SVD reconstruction")
 	full := r.Thorough()
